@@ -52,6 +52,8 @@ TECMP::CanPayload::CanPayload()
 TECMP::CanPayload::CanPayload(const uint8_t* data, const size_t size)
     : Payload(TECMP::PayloadType::can, data, size)
 {
+    if (size < sizeof(Header) || getDlc() > size - sizeof(Header))
+        setType(TECMP::PayloadType::invalid);
 }
 
 const uint8_t* TECMP::CanPayload::getData() const
@@ -80,6 +82,7 @@ uint32_t TECMP::CanPayload::getCrc() const
     uint32_t result = 0;
     auto crcOffset = sizeof(Header) + getHeader()->getDlc();
     auto crcPtr = payloadData.data() + crcOffset;
-    memcpy((void*) &result, crcPtr, 3);
+    const size_t crcSize = payloadData.size() - crcOffset;
+    memcpy((void*) &result, crcPtr, crcSize < 3 ? crcSize : 3);
     return result;
 }
